@@ -49,10 +49,16 @@ DEFECTS = {
                            ('def text-transformer C03_T = filter C03_STR', None),
                            # a path hidden at second position / second level behind string symbols, where a pure string is required
                            ('exit-code == @[C03_S2]@', ['assert']), ('exit-code == @[C03_S3]@', ['assert']),
-                           ('def integer-matcher C03_IM = == @[C03_S2]@\nfile f.txt = "ab" -transformed-by filter line-num C03_IM', None)],
+                           ('def integer-matcher C03_IM = == @[C03_S2]@\nfile f.txt = "ab" -transformed-by filter line-num C03_IM', None),
+                           # the same symbol twice in one instruction, the first use legal, the second not
+                           ('file o.txt = -contents-of @[C03_STR]@ -transformed-by C03_STR', None),
+                           ('stdout -transformed-by C03_TT equals @[C03_TT]@', ['assert']),
+                           ('run % echo @[C03_STR]@ @[C03_STR]@ -existing-path -rel C03_STR .', None)],
                           'DefSymbols'),
     'illegal relativity via symbol': ([('file @[C03_HP]@/f.txt = x', None), ('file -rel C03_HP f.txt = x', None),
                                        ('dir @[C03_HP]@/d', None),
+                                       # the same symbol twice in one instruction: legal as source, illegal as destination
+                                       ('copy @[C03_HP]@ @[C03_HP]@', None), ('copy @[C03_HP]@ @[C03_HP]@/copy', None),
                                        # ... reached indirectly: string symbols whose later / deeper reference is the home-relative path
                                        ('dir @[C03_S2]@/d', None), ('file @[C03_S2]@/f.txt = x', None), ('dir @[C03_S3]@/d', None)],
                                       'DefSymbols'),
@@ -112,7 +118,8 @@ def build_case(markers, insert, act_line=None, conf_lines=(), later_in=None, inc
     prereq = ['def line-matcher C03_LM = line-num == 1', 'def path C03_HP = -rel-home x', 'def string C03_STR = str',
               # a string symbol that itself has references, and one composed of it and a home-relative path (indirect defects)
               'def string C03_A = @[C03_STR]@', 'def string C03_S2 = @[C03_A]@@[C03_HP]@', 'def string C03_S3 = @[C03_S2]@',
-              'def program C03_PROG = % true', 'def program C03_PROG2 = @ C03_PROG first-arg']
+              'def program C03_PROG = % true', 'def program C03_PROG2 = @ C03_PROG first-arg',
+              'def text-transformer C03_TT = char-case -to-upper']
     if insert is not None:
         p, pos, text = insert
         lst = body[p]
@@ -294,6 +301,8 @@ def run(ctx, res):
     for d in (sbx, markers, home):
         os.makedirs(d)
     open(os.path.join(home, 'exists.txt'), 'w').write('1\n2\n')
+    open(os.path.join(home, 'x'), 'w').write('x\n')      # what C03_HP (-rel-home x) names
+    open(os.path.join(home, 'str'), 'w').write('s\n')    # what the string C03_STR names when used as a file name
     open(os.path.join(home, 'c03-inc.xly'), 'w').write('$ touch %s/included\n' % markers)
     created = []
     mp = impl.main_program(sbx, on_create=created.append)
